@@ -711,11 +711,11 @@ def plan(tier, seed):
     return out
 
 
-def _feature_strata(acc, trees):
+def _feature_strata(acc, trees, product):
     for op in ("union", "opt", "ann", "array", "tv", "tuple", "dict", "list", "set", "Any", "None", "NoAnn"):
         n = sum(1 for t in trees if contains(t, op))
         if n:
-            acc.stratum(f"annotations-with-{op}", n)
+            acc.stratum(f"annotations-with-{op}:rows-of-{product}", n)
 
 
 def run_unit(unit):  # noqa: C901, PLR0912, PLR0915
@@ -763,10 +763,10 @@ def run_unit(unit):  # noqa: C901, PLR0912, PLR0915
             if v != UNC and reason not in TRIVIAL_REASONS:
                 acc.stratum(f"nontrivial-pairs:{rname}x{cname}", cnt)
             acc.outcome(f"{v}|{reason}|{r}")
-        if c == 0:
-            _feature_strata(acc, rows)
-            acc.stratum(f"alphabet-size:{rname}", len(rows))
-            acc.stratum(f"alphabet-size:{cname}", len(cols))
+        if c == 0:  # once per (rows x cols) product
+            _feature_strata(acc, rows, f"{rname}x{cname}")
+            acc.stratum(f"alphabet-size:rows-of-{rname}x{cname}", len(rows))
+            acc.stratum(f"alphabet-size:cols-of-{rname}x{cname}", len(cols))
             acc.sample({"op": "pair", "a": lst(rows[len(rows) // 2]), "b": lst(cols[len(cols) // 3])})
     elif kind in ("pipe2", "pipe2str"):
         if kind == "pipe2":
